@@ -22,6 +22,8 @@ The reference model below interprets the *statements* of C01-C03 over the spec
 tree with parent pointers and ancestor sets; it shares nothing with Samek's
 tpath algorithm in miros/hsm.py.
 """
+import functools
+
 from miros.event import signals, Event, return_status as RS
 from miros.hsm import spy_on
 
@@ -202,6 +204,14 @@ def topo_class(spec, S, T):
 # ---------------------------------------------------------------------------
 # ground-truth logging closures
 
+def foreign_decorator(fn):
+  """a user's own functools.wraps-style decorator (timing, logging ...): not spy_on, changes nothing"""
+  @functools.wraps(fn)
+  def passthrough(chart, e):
+    return fn(chart, e)
+  return passthrough
+
+
 class Run:
   """Builds state functions for a spec.  Ground truth is logged *inside* the
   undecorated function (below any spy_on wrapper):
@@ -212,8 +222,9 @@ class Run:
           ('act', kind, arg) for side actions, ('guard', name, SIG, fired)
   """
 
-  def __init__(self, spec, spied=False, budget=None, fault=None, marks=None):
+  def __init__(self, spec, spied=False, budget=None, fault=None, marks=None, foreign_deco=False):
     self.spec = spec
+    self.foreign_deco = foreign_deco
     self.spied = spied
     self.log, self.inv, self.calls_log = [], [], []
     self.marks = marks          # optional shared list for act markers (spy oracle)
@@ -227,7 +238,11 @@ class Run:
     self.fns = [None] * spec['n']
     for i in range(spec['n']):
       self.raw[i] = self._mk(i)
-      self.fns[i] = spy_on(self.raw[i]) if spied else self.raw[i]
+      self.fns[i] = spy_on(self.raw[i]) if spied else (foreign_decorator(self.raw[i]) if foreign_deco else self.raw[i])
+
+  def is_handler_of(self, fn, i):
+    """fn is state i's handler (the state function or a decorated form of it)"""
+    return fn is self.raw[i] or fn is self.fns[i] or getattr(fn, '__wrapped__', None) is self.raw[i]
 
   def tick(self):
     self.calls += 1
@@ -331,7 +346,7 @@ class Run:
                 chart.trans(self.fns[pre[1]])
               elif pre[0] == 'is_in':
                 chart.is_in(self.fns[pre[1]])
-              elif pre[0] == 'child_state' and chart.state.fun is self.fns[i]:
+              elif pre[0] == 'child_state' and chart.state.fun == self.fns[i]:
                 chart.child_state(self.fns[pre[1]])
             if not fired:
               return ret(RS.UNHANDLED)
